@@ -1,2 +1,63 @@
--- Driver stub for C02 (replaced when the property's model driver is written).
-def main : IO Unit := IO.println "C02: no driver yet"
+import TsVerif.Common.IO
+import TsVerif.C02.Judge
+import Std.Data.HashMap
+/-!
+Driver for C02: reads language tables (`deflang … enddeflang`) and cases (text, full internal
+dump, public-API observations), prints per case
+`<id> corr=<ok|FAIL clauses :: details> inv=<ok|BAD> judge=<ok|FAIL clauses :: details> raw=.. vis=.. …`.
+-/
+open TsVerif TsVerif.C02 TsGen
+
+structure St where
+  langs : Std.HashMap String Lang := {}
+  defId : String := ""
+  defLang : Lang := {}
+  id : String := ""
+  lang : String := ""
+  kind : String := ""
+  text : Array Nat := #[]
+  dump : Array String := #[]
+  api : Array ApiNode := #[]
+  notree : String := ""
+  calls : String := ""
+  mode : Nat := 0   -- 0 none, 1 deflang, 2 tree dump, 3 api
+
+def runCase (s : St) : String :=
+  if s.notree != "" then
+    s!"{s.id} corr=ok inv=ok judge=FAIL termination:{s.notree} :: termination:{s.notree}: parse returned no tree ({s.calls}) kind={s.kind}"
+  else
+    match s.langs.get? s.lang, parseDump s.dump.toList with
+    | some lang, some d =>
+      let r := judgeCase lang s.text d.root s.api
+      let js := r.js
+      s!"{s.id} corr={r.corr.render} inv={if r.inv then "ok" else "BAD"} judge={r.judge.render} raw={js.rawNodes} vis={js.vnodes.size} inner={r.corrStats.inner} hiddenvis={js.hiddenWithVisible} alias={js.aliases} extra={js.extras} err={js.errors} missing={js.missing} multiline={js.multiline} zerowidth={js.zeroWidth} leaves={js.leaves} literals={js.literals} bytes={s.text.size} kind={s.kind}"
+    | _, _ => s!"{s.id} corr=BADINPUT inv=ok judge=BADINPUT"
+
+def step (s : St) (line : String) : IO St := do
+  if s.mode == 1 then
+    if line == "enddeflang" then
+      return { s with mode := 0, langs := s.langs.insert s.defId s.defLang }
+    else return { s with defLang := s.defLang.addLine line }
+  if s.mode == 2 then
+    if line == "end" then return { s with mode := 0 } else return { s with dump := s.dump.push line }
+  if s.mode == 3 then
+    if line == "endapi" then return { s with mode := 0 }
+    else match parseApiLine line with
+      | some a => return { s with api := s.api.push a }
+      | none => return s
+  match line.splitOn " " with
+  | ["deflang", id] => return { s with mode := 1, defId := id, defLang := {} }
+  | ["case", id] => return { langs := s.langs, id := id }
+  | ["lang", l] => return { s with lang := l }
+  | ["kind", k] => return { s with kind := k }
+  | "calls" :: rest => return { s with calls := " ".intercalate rest }
+  | ["text", h] => return { s with text := (unhexBytes h).toArray }
+  | ["text"] => return { s with text := #[] }
+  | "tree" :: _ => return { s with mode := 2, dump := #[] }
+  | "api" :: _ => return { s with mode := 3, api := #[] }
+  | ["notree", why] => return { s with notree := why }
+  | ["run"] => IO.println (runCase s); return s
+  | _ => return s
+
+def main : IO Unit := do
+  let _ ← foldLines (← IO.getStdin) ({} : St) step
